@@ -29,7 +29,7 @@ ASSUMPTIONS = ["field values are canonical for their type (render = identity on 
 RULE = ("messages generated from the dumped metadata: every message type, mandatory fields plus a random optional subset, "
         "values per field type, groups with 0..3 elements nested to the schema's depth, random insertion order; all insertion "
         "permutations of small messages; large (1.1 KB .. 7.9 KB) messages of bytes >= 0x80 (0xff, random, UTF-8 Cyrillic/CJK; ASCII controls) in string fields and in groups of text lines; BodyLength boundaries 99/100/101 and 999/1000/1001; second encode (ENC2) and "
-        "elements without their first field as known-finding classes; A->copy_legal(B) across message types followed by B's own insertions (XCOPY), all ordered pairs of types sharing >= 3 fields, preferring pairs whose schema orders differ; RT cases decode the real bytes on both sides. "
+        "elements without their first field as known-finding classes; data-typed fields (header, body, group elements, trailer) with payloads containing NUL, '=', high bytes and every byte value except SOH, handed over as length-carrying strings, with their Length fields; every ENC case is encoded through both Message::encode overloads; A->copy_legal(B) across message types followed by B's own insertions (XCOPY), all ordered pairs of types sharing >= 3 fields, preferring pairs whose schema orders differ; RT cases decode the real bytes on both sides. "
         "non-trivial = an OK result with at least 8 tokens; distinct = distinct case lines")
 
 
@@ -120,6 +120,58 @@ def gen_cases(rng, tier):
         # an independent byte sum (wire_ok uses C07's specification sum) sees a wrong CheckSum
         for cls, mt, hdr, body, trl in G.highbyte_messages(meta, rng, max_types=6 if thorough else 4):
             cs.append(Case(px + "ENC " + G.ser_msg(mt, hdr, body, trl), cls))
+        # data-typed fields with arbitrary payload bytes -- NUL, '=', high bytes, every byte value except SOH
+        # (a SOH inside a value cannot be told from the field separator by a Length-unaware tokenizer: C06) --
+        # handed over as length-carrying std::string ("~hex": Field<f8String>(const f8String&)), with the
+        # matching Length field, in header (90/91, 212/213), body, group elements and trailer (93/89)
+        def data_payloads():
+            allb = bytes(b for b in range(256) if b != 1)
+            yield b"a\x00b"
+            yield b"\x00"
+            yield b"\x00tail"
+            yield b"head\x00"
+            yield allb
+            yield bytes(rng.choice(allb) for _ in range(rng.randint(1, 300)))
+            yield b"x=y\x00=z"
+
+        def data_sites(owner):
+            ts = sorted(meta.traits.get(owner, []), key=lambda t: t.pos)
+            bypos = {t.pos: t for t in ts}
+            for t in ts:
+                if t.ftype in (G.FT_DATA, G.FT_XMLDATA) and (t.flags & 4):
+                    prev = bypos.get(t.pos - 1)
+                    yield t, (prev if prev is not None and prev.ftype == G.FT_LENGTH else None)
+        dgen = G.MsgGen(meta, rng, p_opt=0.1, max_elems=1, no_pairs=True)
+        nd = 0
+        for mt in types:
+            sites = [("B", mt, t, ln) for t, ln in data_sites(mt)]
+            sites += [("G", (gf, sub), t, ln) for gf, sub in sorted(meta.groups.get(mt, {}).items()) for t, ln in data_sites(sub)]
+            if nd < 8:
+                sites += [("H", "header", t, ln) for t, ln in data_sites("header")] + [("T", "trailer", t, ln) for t, ln in data_sites("trailer")]
+            for where, own, t, ln in sites[:6 if thorough else 3]:
+                for payload in data_payloads():
+                    mt2, hdr, body, trl = dgen.message(mt, max_wire=1500)
+                    pair = ([G.Fld(ln.fnum, str(len(payload)).encode())] if ln is not None else []) + [G.Fld(t.fnum, payload, raw=True)]
+                    if where == "B":
+                        body = [f for f in body if f.fnum not in {x.fnum for x in pair}] + pair
+                    elif where == "H":
+                        hdr = [f for f in hdr if f.fnum not in {x.fnum for x in pair}] + pair
+                    elif where == "T":
+                        trl = pair
+                    else:
+                        gf, sub = own
+                        first = meta.first_field(sub)
+                        el = list(pair)
+                        if first is not None and first not in {x.fnum for x in el}:
+                            el.insert(0, G.Fld(first, G.gen_value(rng, meta.trait(sub, first).ftype, first)))
+                        for mt_ in meta.traits.get(sub, []):
+                            if mt_.mandatory and not mt_.group and mt_.fnum not in {x.fnum for x in el}:
+                                el.append(G.Fld(mt_.fnum, G.gen_value(rng, mt_.ftype, mt_.fnum)))
+                        body = [f for f in body if f.fnum != gf] + [G.Fld(gf, b"1", [el])]
+                    cs.append(Case(px + "ENC " + G.ser_msg(mt, hdr, body, trl), "data-bytes-%s" % where))
+                    nd += 1
+            if not thorough and nd > 260:
+                break
         # copy_legal as the insertion path (the idiom of the example servers: NewOrderSingle -> ExecutionReport):
         # A->copy_legal(B) with B of ANOTHER message type, then B's own fields; B must encode in B's schema order
         def same_group(oa, ob):
